@@ -390,24 +390,31 @@ fn replay(args: &Args) {
         .build();
         // 3. execute
         let signer_keys: Vec<PublicKey> = case["signers"].as_array().unwrap().iter().map(|k| cx.keys[s(k)].clone()).collect();
-        let receipt = if case["sim"].as_bool().unwrap() {
-            cx.w.ledger.preview_manifest(
-                manifest,
-                signer_keys.clone(),
-                0,
-                PreviewFlags {
-                    use_free_credit: true,
-                    assume_all_signature_proofs: true,
-                    skip_epoch_check: true,
-                    disable_auth: false,
-                },
-            )
-        } else {
-            let proofs: Vec<NonFungibleGlobalId> = signer_keys.iter().map(NonFungibleGlobalId::from_public_key).collect();
-            cx.w.ledger.execute_manifest(manifest, proofs)
-        };
+        // a panic of the code under test is data: the case's outcome is "panic:<message>"
+        let sim = case["sim"].as_bool().unwrap();
+        let run = catch(|| {
+            if sim {
+                cx.w.ledger.preview_manifest(
+                    manifest,
+                    signer_keys.clone(),
+                    0,
+                    PreviewFlags {
+                        use_free_credit: true,
+                        assume_all_signature_proofs: true,
+                        skip_epoch_check: true,
+                        disable_auth: false,
+                    },
+                )
+            } else {
+                let proofs: Vec<NonFungibleGlobalId> = signer_keys.iter().map(NonFungibleGlobalId::from_public_key).collect();
+                cx.w.ledger.execute_manifest(manifest, proofs)
+            }
+        });
         steps += n;
-        let got = outcome_class(&receipt, tbp, &tident);
+        let got = match &run {
+            Ok(receipt) => outcome_class(receipt, tbp, &tident),
+            Err(msg) => format!("panic:{}", msg).chars().take(160).collect(),
+        };
         let (exp, alt) = (s(&case["exp"]["outcome"]), s(&case["exp"]["alt"]));
         if got != exp && got != alt {
             out.mismatch(*idx, n, "outcome", json!([exp, alt]), json!(got));
